@@ -4,6 +4,7 @@ import (
 	"fmt"
 	"io"
 	"os"
+	"path"
 	"path/filepath"
 	"strings"
 	"sync"
@@ -206,9 +207,15 @@ func (c *LocalReusableWorkflowCache) debug(format string, args ...interface{}) {
 	fmt.Fprintf(c.dbg, format, args...)
 }
 
+// cleanWorkflowSpec returns the key of the cache for the workflow spec. "./a.yml", "././a.yml" and
+// "./b/../a.yml" are the same file, so one key is used for them.
+func cleanWorkflowSpec(spec string) string {
+	return "./" + path.Clean(spec)
+}
+
 func (c *LocalReusableWorkflowCache) readCache(key string) (*ReusableWorkflowMetadata, bool) {
 	c.mu.RLock()
-	m, ok := c.cache[key]
+	m, ok := c.cache[cleanWorkflowSpec(key)]
 	c.mu.RUnlock()
 	return m, ok
 }
@@ -218,7 +225,7 @@ func (c *LocalReusableWorkflowCache) writeCache(key string, val *ReusableWorkflo
 		return // Null cache (no project). It has no map to write to
 	}
 	c.mu.Lock()
-	c.cache[key] = val
+	c.cache[cleanWorkflowSpec(key)] = val
 	c.mu.Unlock()
 }
 
@@ -227,6 +234,7 @@ func (c *LocalReusableWorkflowCache) writeCache(key string, val *ReusableWorkflo
 func (c *LocalReusableWorkflowCache) writeCacheIfAbsent(key string, val *ReusableWorkflowMetadata) (*ReusableWorkflowMetadata, bool) {
 	c.mu.Lock()
 	defer c.mu.Unlock()
+	key = cleanWorkflowSpec(key)
 	if m, ok := c.cache[key]; ok {
 		return m, false
 	}
@@ -316,7 +324,7 @@ func (c *LocalReusableWorkflowCache) WriteWorkflowCallEvent(wpath string, event 
 	c.debug("Workflow call spec from workflow path %s: %s", wpath, spec)
 
 	c.mu.RLock()
-	_, ok = c.cache[spec]
+	_, ok = c.cache[cleanWorkflowSpec(spec)]
 	c.mu.RUnlock()
 	if ok {
 		return
@@ -360,7 +368,7 @@ func (c *LocalReusableWorkflowCache) WriteWorkflowCallEvent(wpath string, event 
 	}
 
 	c.mu.Lock()
-	c.cache[spec] = m
+	c.cache[cleanWorkflowSpec(spec)] = m
 	c.mu.Unlock()
 
 	c.debug("Workflow call metadata from workflow %s: %v", wpath, m)
